@@ -301,6 +301,14 @@ mpf_set_str (mpf_ptr x, const char *str, int base)
       c = (unsigned char) *++str;
     }
 
+  /* trailing zero digits after the point carry no information, but the
+     conversion below works on the digits as one integer, truncates it to
+     prec+1 limbs and divides by a truncated power of the base: "7." followed
+     by 57 zeros came out as 7 - 2^-128 in a 64-bit float */
+  if (dotpos != 0)
+    while (s > dotpos && s[-1] == 0)
+      s--;
+
   str_size = s - begs;
 
   {
